@@ -65,6 +65,7 @@ func runC06(c *Ctx) {
 	c.ruleFlatten("C06.flatten")
 	// re-registering a node keeps the count of the pipelines that still list it
 	c.ruleRegisterNode("C06.carry")
+	c.ruleOptsTable("C06.carry", []string{"WithNodeRegistrationPolicy"})
 
 	// --- C06.inc / C06.replace / C06.dec on paths
 	for _, f := range p.FuncsIn(PkgRoot) {
@@ -596,38 +597,52 @@ func (c *Ctx) ruleCloseOnce() {
 
 // ---------------------------------------------------------------------------
 
-func runC07(c *Ctx) {
+// ruleOptsTable: decision table of the policy option constructors — exactly the two
+// valid policies are stored, everything else is rejected without storing. (Also runs
+// as C06.carry policy-domain: RegisterNode's carry-over distinguishes exactly these two
+// values; a third value that the option let through would overwrite an in-use node
+// with a reference count of 0.)
+func (c *Ctx) ruleOptsTable(rule string, names []string) {
 	p, r := c.P, c.R
-	r.Explanation = "Decides the overwrite-policy clauses structurally: both option constructors store exactly the two valid policies and reject everything else without storing (decision table over the policy value); RegisterNode cannot reach its map assignment when the EXISTING entry's policy is DenyOverwrite, the new entry carries the option's policy and, on overwrite, the old count; RegisterPipeline tests the policy of the existing entry whose key equals def.PipelineID in the graph of def.EventType, cannot reach Store when it is DenyOverwrite, and the new entry carries the option's policy; a successful call performs exactly one Store of a fresh registration whose root was linked by this very call (with C04.immutable: no in-place edits of published lists — the structural premise of 'each Send sees exactly one version'); policies live only inside the entries that removal deletes. What a concurrent Send observes during the swap is sync.Map semantics (A4). C07.defaults: both policies default to AllowOverwrite and getOpts applies every non-nil option of the whole list to the one defaults-initialised struct, returning it or the option error. C07.section: validation and commit in one critical section."
-	r.NotDecided = []string{"what a concurrent Send observes while the Store happens (sync.Map semantics, A4)"}
-	_ = p
-	c.ruleOptionDefaults()
-	if gf := c.Fn("C07.defaults", PkgRoot, "", "getOpts"); gf != nil {
-		// "invalid policy values are rejected": the error of EVERY option reaches the caller
-		c.errorFlowRule("C07.defaults", gf, nil, false)
-	}
-	// --- C07.opts
-	for _, name := range []string{"WithPipelineRegistrationPolicy", "WithNodeRegistrationPolicy"} {
-		fn := c.Fn("C07.opts", PkgRoot, "", name)
+	for _, name := range names {
+		fn := c.Fn(rule, PkgRoot, "", name)
 		if fn == nil {
 			continue
 		}
 		if len(fn.AnonFuncs) != 1 {
-			r.Und("C07.opts", name, p.Pos(fn.Pos()), "expected one closure")
+			r.Und(rule, name, p.Pos(fn.Pos()), "expected one closure")
 			continue
 		}
 		cl := fn.AnonFuncs[0]
 		field := map[string]string{"WithPipelineRegistrationPolicy": "withPipelineRegistrationPolicy", "WithNodeRegistrationPolicy": "withNodeRegistrationPolicy"}[name]
+		// acceptance implies membership: every path that returns nil established that the policy
+		// IS one of the two valid constants (a third accepted value — the empty string as "unset",
+		// say — is stored like any other and later read by code that only knows two)
+		for _, pa := range c.enum(rule, cl, PathOpts{Inline: inlineSmall()}) {
+			rv := pa.RetVals()
+			if len(rv) != 1 || !isNilConst(rv[0]) {
+				continue
+			}
+			member := false
+			for _, at := range pa.Atoms {
+				if at.Op == "eq" && !at.Neg && at.R.Op == "Const" && (at.R.Name == `"AllowOverwrite"` || at.R.Name == `"DenyOverwrite"`) {
+					member = true
+				}
+			}
+			if !member {
+				r.Bad(rule, name+":accepts-only-valid", p.InstrPos(pa.End), "the option accepts a policy without having found it equal to AllowOverwrite or DenyOverwrite ("+shortStr(p.PathSummary(pa), 200)+"): such a value is stored as the registration's policy, and RegisterNode — which carries the reference count over only for AllowOverwrite — would overwrite an in-use node with a count of 0")
+			}
+		}
 		for _, val := range []string{`"AllowOverwrite"`, `"DenyOverwrite"`, "other"} {
 			r.TableRows++
 			var match []*Path
-			for _, pa := range c.enum("C07.opts", cl, PathOpts{}) {
+			for _, pa := range c.enum(rule, cl, PathOpts{Inline: inlineSmall()}) {
 				all := true
 				for _, at := range pa.Atoms {
 					if at.Op != "eq" || at.R.Op != "Const" || !pa.TermsAt(pa.LastStep()).Of(at.L.V).IsParam("0:policy") {
 						// free variable policy resolves to the constructor's parameter
 						if at.Op != "eq" || at.R.Op != "Const" || at.L.String() != "Param(0:policy)" {
-							r.Und("C07.opts", name+":atom", p.InstrPos(at.If), "branch condition not understood: "+at.String())
+							r.Und(rule, name+":atom", p.InstrPos(at.If), "branch condition not understood: "+at.String())
 							all = false
 							break
 						}
@@ -646,7 +661,7 @@ func runC07(c *Ctx) {
 				}
 			}
 			if len(match) != 1 {
-				r.Und("C07.opts", name+":"+val, p.Pos(cl.Pos()), fmt.Sprintf("%d paths match", len(match)))
+				r.Und(rule, name+":"+val, p.Pos(cl.Pos()), fmt.Sprintf("%d paths match", len(match)))
 				continue
 			}
 			pa := match[0]
@@ -661,12 +676,26 @@ func runC07(c *Ctx) {
 				}
 			}
 			if val == "other" {
-				r.Check(len(stores) == 0 && !isNilConst(rv[0]), "C07.opts", name+":invalid", p.InstrPos(pa.End), "an invalid policy is rejected with an error and nothing is stored", fmt.Sprintf("an invalid policy value is not rejected cleanly (stores %v)", stores))
+				r.Check(len(stores) == 0 && !isNilConst(rv[0]), rule, name+":invalid", p.InstrPos(pa.End), "an invalid policy is rejected with an error and nothing is stored", fmt.Sprintf("an invalid policy value is not rejected cleanly (stores %v)", stores))
 			} else {
-				r.Check(len(stores) == 1 && stores[0] == field+"=Param(0:policy)" && isNilConst(rv[0]), "C07.opts", name+":valid", p.InstrPos(pa.End), "a valid policy is stored in "+field+" and nil returned", fmt.Sprintf("valid policy %s: stores %v", val, stores))
+				r.Check(len(stores) == 1 && stores[0] == field+"=Param(0:policy)" && isNilConst(rv[0]), rule, name+":valid", p.InstrPos(pa.End), "a valid policy is stored in "+field+" and nil returned", fmt.Sprintf("valid policy %s: stores %v", val, stores))
 			}
 		}
 	}
+}
+
+func runC07(c *Ctx) {
+	p, r := c.P, c.R
+	r.Explanation = "Decides the overwrite-policy clauses structurally: both option constructors store exactly the two valid policies and reject everything else without storing (decision table over the policy value); RegisterNode cannot reach its map assignment when the EXISTING entry's policy is DenyOverwrite, the new entry carries the option's policy and, on overwrite, the old count; RegisterPipeline tests the policy of the existing entry whose key equals def.PipelineID in the graph of def.EventType, cannot reach Store when it is DenyOverwrite, and the new entry carries the option's policy; a successful call performs exactly one Store of a fresh registration whose root was linked by this very call (with C04.immutable: no in-place edits of published lists — the structural premise of 'each Send sees exactly one version'); policies live only inside the entries that removal deletes. What a concurrent Send observes during the swap is sync.Map semantics (A4). C07.defaults: both policies default to AllowOverwrite and getOpts applies every non-nil option of the whole list to the one defaults-initialised struct, returning it or the option error. C07.section: validation and commit in one critical section."
+	r.NotDecided = []string{"what a concurrent Send observes while the Store happens (sync.Map semantics, A4)"}
+	_ = p
+	c.ruleOptionDefaults()
+	if gf := c.Fn("C07.defaults", PkgRoot, "", "getOpts"); gf != nil {
+		// "invalid policy values are rejected": the error of EVERY option reaches the caller
+		c.errorFlowRule("C07.defaults", gf, nil, false)
+	}
+	// --- C07.opts
+	c.ruleOptsTable("C07.opts", []string{"WithPipelineRegistrationPolicy", "WithNodeRegistrationPolicy"})
 	r.Floor("C07.opts", 6)
 
 	// --- C07.node
